@@ -59,7 +59,7 @@ func buildTimeCodec(schema avro.Schema, typ reflect.Type, omit bool) (avro.Codec
 type DateCodec struct{ avro.Int32Codec }
 
 func (c DateCodec) Read(r *avro.ReadBuf, p unsafe.Pointer) error {
-	var l int64
+	var l int32
 	if err := c.Int32Codec.Read(r, unsafe.Pointer(&l)); err != nil {
 		return err
 	}
